@@ -366,6 +366,34 @@ example : tableOf [.defmethod .primary [0] ⟨1, .stop⟩, .call [3], .defmethod
   simp only [tableOf, Table.set, Table.empty]
   by_cases h : k = [0] ∧ q = Qual.primary <;> simp [h]
 
+/-- Calls never change the table: the table of a history is that of its mutations alone. -/
+theorem calls_do_not_matter (ops : List Op) (t : Table) :
+    tableOf ops t = tableOf (ops.filter (fun op => match op with | .call _ => false | _ => true)) t := by
+  induction ops generalizing t with
+  | nil => rfl
+  | cons op ops ih =>
+    cases op with
+    | call cs => simpa [tableOf] using ih t
+    | defmethod q k b => simpa [tableOf] using ih _
+    | remove q k => simpa [tableOf] using ih _
+
+/-- **Post-quiescence judgement of the race rounds.** However the racing calls were interleaved
+    with the mutations (two histories with the same mutations in the same order, calls anywhere),
+    a call made after everything has finished has one outcome: the specification's on the table of
+    the mutations. This is what the harness demands of the implementation after each round. -/
+theorem post_quiescence_outcome (E : Env) (hT : ∀ c, E.tC ∈ E.cpl c)
+    (ops1 ops2 : List Op) (cs : List Cls) (hlen : cs.length = E.n)
+    (hmut : ops1.filter (fun op => match op with | .call _ => false | _ => true)
+          = ops2.filter (fun op => match op with | .call _ => false | _ => true)) :
+    (step E (run E Aux.init ops1) (.call cs)).2 = (step E (run E Aux.init ops2) (.call cs)).2 := by
+  apply same_table_same_outcome E hT ops1 ops2 cs hlen
+  rw [calls_do_not_matter ops1, calls_do_not_matter ops2, hmut]
+
+example : ([Op.call [3], .defmethod .primary [0] ⟨1, .stop⟩, .call [2]].filter
+      (fun op => match op with | .call _ => false | _ => true))
+    = ([Op.defmethod .primary [0] ⟨1, .stop⟩, .call [3]].filter
+      (fun op => match op with | .call _ => false | _ => true)) := by decide
+
 theorem runOps_eq_specOuts (E : Env) (hT : ∀ c, E.tC ∈ E.cpl c) (a : Aux) (h : Inv E a)
     (ops : List Op) (hwf : WellFormed E ops) :
     (runOps E a ops).2 = specOuts E ops (absT a.methods) := by
